@@ -325,6 +325,9 @@ func LoadCase(path string) (*Case, error) {
 // Run executes a property: as a replay of VERIF_REPLAY when that names a case of this check,
 // otherwise as a rapid search. check is the name of the sub check (one property may have several).
 func Run(t *testing.T, property, check string, prop Prop) {
+	// a fault in memory-mapped file data (fs.OSMMap) becomes a panic of this goroutine, which
+	// Safe turns into a violation with a saved case instead of a dead test binary
+	debug.SetPanicOnFault(true)
 	st := NewStats()
 	start := time.Now()
 	failed := false
@@ -375,6 +378,7 @@ func Run(t *testing.T, property, check string, prop Prop) {
 // range). Used where the input space is a finite corpus that is to be covered exhaustively rather
 // than sampled. Failures are saved in the same replay format as Run's.
 func RunEnum(t *testing.T, property, check string, cases [][]int64, prop Prop) {
+	debug.SetPanicOnFault(true)
 	st := NewStats()
 	start := time.Now()
 	failed := false
